@@ -72,7 +72,7 @@ def stable_forms(g, rin):
     return out
 
 
-def check_direction(res, g, L, direction, form, pairs, lines, out, prop="C01", judge=None):
+def check_direction(res, g, L, direction, form, pairs, lines, out, prop="C01", judge=None, scratch=None, gpath=None):
     """pairs: list of input records; lines: output lines"""
     desc = conv.layout_desc(L)
     if out.kind != "ok":
@@ -90,34 +90,54 @@ def check_direction(res, g, L, direction, form, pairs, lines, out, prop="C01", j
             {"layout": desc, "direction": direction, "form": form, "records": [r.line() for r in pairs[:200]]},
         )
         return
-    for rin, line in zip(pairs, lines):
+    fmt = "stable" if direction == "u2s" else "unstable"
+
+    def still_fails(kind):
+        def test(lst):
+            o, ls = conv.view_convert(scratch, "".join(r.line() + "\n" for r in lst), gpath, fmt, "shrink")
+            if o.kind != "ok" or len(ls) != len(lst):
+                return True
+            try:
+                ro = rgfa.Rec.parse(ls[-1])
+            except Exception:
+                return True
+            return any(k == kind for k, t in judge(g, lst[-1], ro, direction))
+
+        return test
+
+    for idx, (rin, line) in enumerate(zip(pairs, lines)):
         res.evaluations += 1
         try:
             rout = rgfa.Rec.parse(line)
         except Exception as e:
-            res.fail(f"{prop}/{direction}:unparsable-line", f"{line!r}: {e}", {"layout": desc, "direction": direction, "form": form, "records": [rin.line()]})
+            res.fail(f"{prop}/{direction}:unparsable-line", f"{line!r}: {e}", {"layout": desc, "direction": direction, "form": form, "records": [r.line() for r in pairs[: idx + 1]][-300:]})
             continue
         steps_n = rin.path.count(">") + rin.path.count("<")
         if steps_n >= 2 or "<" in rin.path or rin.strand == "-":
             res.nt(fw.h64(L.name + direction + form + rin.line()))
         for kind, text in judge(g, rin, rout, direction):
+            sig = f"{prop}/{direction}:{kind}"
+            ctx = [rin]
+            if res.would_keep(sig) and scratch is not None:
+                ctx = conv.shrink_context(pairs, idx, still_fails(kind))
             res.fail(
-                f"{prop}/{direction}:{kind}",
-                f"[{L.name}] {rin.path} [{rin.ps},{rin.pe}) strand {rin.strand} -> {rout.path} [{rout.ps},{rout.pe}) strand {rout.strand}: {text}",
-                {"layout": desc, "direction": direction, "form": form, "records": [rin.line()]},
+                sig,
+                f"[{L.name}] {rin.path} [{rin.ps},{rin.pe}) strand {rin.strand} -> {rout.path} [{rout.ps},{rout.pe}) strand {rout.strand}: {text}"
+                + (f" (only after {len(ctx) - 1} earlier record(s) in the same file)" if len(ctx) > 1 else ""),
+                {"layout": desc, "direction": direction, "form": form, "records": [r.line() for r in ctx]},
             )
 
 
 def run_layout(res, L, tier, scratch, judge=conv.judge_locus, prop="C01"):
     g = L.graph("complete")
     gpath = os.path.join(scratch, "g.gfa")
-    fw.write_text(gpath, g.text())
+    fw.write_text(gpath, conv.gfa_text(g, L))
     maxlen = maxlen_for(L, tier)
     recs = [r for r, steps in conv.records_for(g, L, maxlen)]
     res.count("records_u2s", len(recs))
     # u -> s
     out, lines = conv.view_convert(scratch, "".join(r.line() + "\n" for r in recs), gpath, "stable", "u2s")
-    check_direction(res, g, L, "u2s", "walk", recs, lines, out, prop, judge)
+    check_direction(res, g, L, "u2s", "walk", recs, lines, out, prop, judge, scratch, gpath)
     # s -> u on the model's own stable forms (independent of the first direction being right)
     sin = {}
     for r in recs:
@@ -129,7 +149,7 @@ def run_layout(res, L, tier, scratch, judge=conv.judge_locus, prop="C01"):
     for form, srecs in sin.items():
         res.count("records_s2u_" + form, len(srecs))
         out, lines = conv.view_convert(scratch, "".join(r.line() + "\n" for r in srecs), gpath, "unstable", "s2u")
-        check_direction(res, g, L, "s2u", form, srecs, lines, out, prop, judge)
+        check_direction(res, g, L, "s2u", form, srecs, lines, out, prop, judge, scratch, gpath)
     if recs:
         k = len(recs) // 2
         res.sample({"layout": L.name, "record": recs[k].line(), "stable_forms": [s.line() for f, s in stable_forms(g, recs[k])]})
@@ -166,7 +186,7 @@ def replay(case, scratch, judge=conv.judge_locus, prop="C01"):
     L = conv.layout_from(case["layout"])
     g = L.graph("complete")
     gpath = os.path.join(scratch, "g.gfa")
-    fw.write_text(gpath, g.text())
+    fw.write_text(gpath, conv.gfa_text(g, L))
     recs = [rgfa.Rec.parse(l) for l in case["records"]]
     text = "".join(r.line() + "\n" for r in recs)
     if case["direction"] == "cli":
@@ -177,5 +197,5 @@ def replay(case, scratch, judge=conv.judge_locus, prop="C01"):
         return res.failures
     fmt = "stable" if case["direction"] == "u2s" else "unstable"
     out, lines = conv.view_convert(scratch, text, gpath, fmt, "rp")
-    check_direction(res, g, L, case["direction"], case["form"], recs, lines, out, prop, judge)
+    check_direction(res, g, L, case["direction"], case["form"], recs, lines, out, prop, judge, None, gpath)
     return res.failures
